@@ -387,7 +387,7 @@ Proof.
 Qed.
 
 (* (i) summary: at each listed time the number of listed nodes whose node_status is s *)
-Lemma summary_spec iv ps tmin l : iv_ps iv = Some ps -> l <> [] ->
+Lemma summary_spec iv ps tmin l : possible_statuses iv = ps -> l <> [] ->
   (forall u, In u l -> exists h, hist_of iv u = Ok h /\ wf_histb ps tmin h = true) ->
   exists rows, summary iv (Some l) = Ok rows /\ rows <> [] /\ StronglySorted Qlt (map fst rows) /\
     (forall t cs, In (t, cs) rows -> tmin <= t /\ cs = map (count_at iv l t) ps) /\
@@ -395,7 +395,7 @@ Lemma summary_spec iv ps tmin l : iv_ps iv = Some ps -> l <> [] ->
     (forall u h x, In u l -> hist_of iv u = Ok h -> In x h -> exists t, In t (map fst rows) /\ t == fst x).
 Proof.
   intros Hps Hl H. destruct (all_entries_spec iv ps tmin l H) as [es [Ees [D1 [D2 D3]]]].
-  unfold summary, possible_statuses. rewrite Hps. cbn [rbind]. rewrite Ees. cbn [rbind].
+  unfold summary. rewrite Hps. cbn zeta. rewrite Ees. cbn [rbind].
   assert (Hne : times_of es <> []).
   { destruct l as [|u l']; [contradiction|]. destruct (H u (or_introl eq_refl)) as [h [Eh Wh]].
     destruct h as [|x r]; [discriminate|]. destruct (D3 u (x :: r) x (or_introl eq_refl) Eh (or_introl eq_refl)) as [e [He _]].
@@ -450,12 +450,12 @@ Proof.
 Qed.
 
 (* S(), I(), R(), t() are the columns of summary() *)
-Lemma column_spec iv ps rows s : iv_ps iv = Some ps -> summary iv None = Ok rows ->
+Lemma column_spec iv ps rows s : possible_statuses iv = ps -> summary iv None = Ok rows ->
   iv_t iv = Ok (map fst rows) /\
   (forall i, index_of s ps = Some i -> column iv s = Ok (map (fun r => nth i (snd r) 0%Z) rows)) /\
   (index_of s ps = None -> column iv s = Err EoNError).
 Proof.
-  intros Hps Hr. unfold iv_t, column, possible_statuses. rewrite Hr, Hps. cbn [rbind].
+  intros Hps Hr. unfold iv_t, column. rewrite Hr, Hps. cbn [rbind].
   split; [reflexivity|]. split; [intros i Hi; rewrite Hi; reflexivity|intro Hi; rewrite Hi; reflexivity].
 Qed.
 
@@ -477,16 +477,15 @@ Proof.
 Qed.
 
 Lemma consistent_sound iv arrays tmin mv : consistent_b iv arrays tmin mv = true ->
-  exists ps rows, possible_statuses iv = Ok ps /\
-    (forall u, In u (iv_nodes iv) -> exists h, hist_of iv u = Ok h /\ good_histb ps mv tmin h = true) /\
+  exists rows,
+    (forall u, In u (iv_nodes iv) -> exists h, hist_of iv u = Ok h /\ good_histb (possible_statuses iv) mv tmin h = true) /\
     summary iv None = Ok rows /\ same_series rows arrays = true.
 Proof.
   unfold consistent_b, consistent. intro H.
-  destruct (possible_statuses iv) as [ps|e]; [|discriminate].
-  destruct (first_bad_hist iv ps mv tmin (iv_nodes iv)) as [u|] eqn:Eb; [discriminate|].
+  destruct (first_bad_hist iv (possible_statuses iv) mv tmin (iv_nodes iv)) as [u|] eqn:Eb; [discriminate|].
   destruct (summary iv None) as [rows|e] eqn:Es; [|discriminate].
   destruct (first_diff rows arrays) as [t|] eqn:Ed; [discriminate|].
-  exists ps, rows. split; [reflexivity|]. split; [apply first_bad_hist_none; exact Eb|]. split; [reflexivity|].
+  exists rows. split; [apply first_bad_hist_none; exact Eb|]. split; [reflexivity|].
   unfold same_series. apply forallb_forall. intros t Ht. unfold first_diff in Ed.
   pose proof (find_none _ _ Ed t Ht) as K. cbn in K. apply negb_false_iff in K. exact K.
 Qed.
@@ -954,17 +953,16 @@ Qed.
 
 (* acceptance: the histories are legal and, at every change time, the returned time
    series (read as a step function) gives the number of nodes by node_status *)
-Lemma consistent_meaning iv arrays tmin mv ps : iv_ps iv = Some ps -> consistent_b iv arrays tmin mv = true ->
+Lemma consistent_meaning iv arrays tmin mv ps : possible_statuses iv = ps -> consistent_b iv arrays tmin mv = true ->
   (forall u, In u (iv_nodes iv) -> exists h, hist_of iv u = Ok h /\ good_histb ps mv tmin h = true) /\
   exists rows, summary iv None = Ok rows /\
     (forall u h x, In u (iv_nodes iv) -> hist_of iv u = Ok h -> In x h -> exists t, In t (map fst rows) /\ t == fst x) /\
     forall t, In t (map fst rows) -> step_at arrays t None = Some (map (count_at iv (iv_nodes iv) t) ps).
 Proof.
-  intros Hps H. destruct (consistent_sound iv arrays tmin mv H) as [ps' [rows [Eps [Hg [Es Ss]]]]].
-  unfold possible_statuses in Eps. rewrite Hps in Eps. inversion Eps; subst ps'. clear Eps.
+  intros Hps H. destruct (consistent_sound iv arrays tmin mv H) as [rows [Hg [Es Ss]]]. rewrite Hps in Hg.
   split; [exact Hg|]. exists rows. split; [exact Es|].
   assert (Hne : iv_nodes iv <> []).
-  { intro E. rewrite summary_all, E in Es. unfold summary, possible_statuses in Es. rewrite Hps in Es. cbn in Es. discriminate. }
+  { intro E. rewrite summary_all, E in Es. unfold summary in Es. cbn in Es. discriminate. }
   assert (Hwf : forall u, In u (iv_nodes iv) -> exists h, hist_of iv u = Ok h /\ wf_histb ps tmin h = true).
   { intros u Hu. destruct (Hg u Hu) as [h [Eh G]]. exists h. split; [exact Eh|]. unfold good_histb in G. apply andb_true_iff in G. exact (proj1 G). }
   destruct (summary_spec iv ps tmin (iv_nodes iv) Hps Hne Hwf) as [rows' [Er [_ [Rs [R4 [_ R6]]]]]].
@@ -975,4 +973,51 @@ Proof.
   specialize (Ss t Hin'). rewrite (step_at_row rows t cs None Rs Hin) in Ss.
   destruct (step_at arrays t None) as [cs'|]; [|discriminate]. cbn in Ss. apply zlist_eqb_eq in Ss. subst cs'.
   f_equal. exact (proj2 (R4 t cs Hin)).
+Qed.
+
+(* ---------------- the default possible statuses ---------------- *)
+Lemma dedupN_In l : forall seen s, In s (dedupN l seen) <-> In s l /\ ~ In s seen.
+Proof.
+  induction l as [|a l IH]; intros seen s; cbn; [tauto|].
+  destruct (mem a seen) eqn:Hm.
+  - apply memb_In in Hm. rewrite IH. split.
+    + intros [H1 H2]. split; [right; exact H1|exact H2].
+    + intros [[H1|H1] H2]; [subst; contradiction|split; assumption].
+  - assert (~ In a seen) as Hn by (intro K; apply memb_In in K; rewrite K in Hm; discriminate).
+    cbn. rewrite IH. cbn. split.
+    + intros [H|[H1 H2]]; [subst; split; [left; reflexivity|exact Hn]|].
+      split; [right; exact H1|]. intro H3. apply H2. right. exact H3.
+    + intros [[H1|H1] H2]; [left; exact H1|].
+      destruct (N.eq_dec a s) as [E|E]; [left; exact E|].
+      right. split; [exact H1|]. intros [H3|H3]; [exact (E H3)|exact (H2 H3)].
+Qed.
+
+Lemma dedupN_NoDup l : forall seen, NoDup (dedupN l seen).
+Proof.
+  induction l as [|a l IH]; intros seen; cbn; [constructor|].
+  destruct (mem a seen); [apply IH|].
+  constructor; [|apply IH]. rewrite dedupN_In. intros [_ H]. apply H. left. reflexivity.
+Qed.
+
+(* possible_statuses=None: each status that occurs in a recorded history, once; the
+   order is not part of the statement *)
+Lemma possible_statuses_default iv : iv_ps iv = None ->
+  NoDup (possible_statuses iv) /\
+  forall s, In s (possible_statuses iv) <-> exists u h e, In (u, h) (iv_hist iv) /\ In e h /\ snd e = s.
+Proof.
+  intro H. unfold possible_statuses, statuses_in. rewrite H. split; [apply dedupN_NoDup|].
+  intro s. rewrite dedupN_In, in_flat_map. split.
+  - intros [[[u h] [Hin Hs]] _]. cbn in Hs. apply in_map_iff in Hs. destruct Hs as [e [Ee He]]. exists u, h, e. auto.
+  - intros [u [h [e [Hin [He Es]]]]]. split; [|intros []]. exists (u, h). split; [exact Hin|]. cbn. apply in_map_iff. exists e. auto.
+Qed.
+
+(* each entry of a row belongs to one status: nothing depends on the order of the statuses *)
+Lemma summary_entry iv ps tmin l rows : possible_statuses iv = ps -> l <> [] ->
+  (forall u, In u l -> exists h, hist_of iv u = Ok h /\ wf_histb ps tmin h = true) ->
+  summary iv (Some l) = Ok rows ->
+  forall t cs i s, In (t, cs) rows -> nth_error ps i = Some s -> nth_error cs i = Some (count_at iv l t s).
+Proof.
+  intros Hps Hl H Er t cs i s Hin Hi.
+  destruct (summary_spec iv ps tmin l Hps Hl H) as [rows' [Er' [_ [_ [R4 _]]]]].
+  rewrite Er in Er'. inversion Er'; subst rows'. rewrite (proj2 (R4 t cs Hin)). apply map_nth_error. exact Hi.
 Qed.
